@@ -23,7 +23,7 @@ Qed.
 
 Lemma hb_atomic v c n m : trun 8 v c n (THb0 m) = handle_hb v c n m.
 Proof.
-  destruct n as [st e p ps k cnt d], m as [mid mst mp mreq], v as [fh fi ff fs fa], c as [id pr pre dec nifs].
+  destruct n as [st e p ps k cnt d], m as [mid mst mp mreq], v as [fh fi ff fs fa], c as [id pr pre dec nifs ov].
   unfold handle_hb.
   destruct st, k, pre, fh, ff, fs, mst;
     repeat (cbn -[wins]; unfold hb_update, elect, peer_discovered, transition_to, set_peer, set_st, set_pknown);
